@@ -320,7 +320,14 @@ func (ex *Exec) applyContract(f *Frame, st *State, x ssa.Instruction, con *Contr
 	}
 	var vals []Val
 	for k := 0; k < sig.Results().Len(); k++ {
-		vals = append(vals, w.freshReg(st, sig.Results().At(k).Type(), fmt.Sprintf("%s_r%d", short, k), OrigCall))
+		rv := w.freshReg(st, sig.Results().At(k).Type(), fmt.Sprintf("%s_r%d", short, k), OrigCall)
+		if pv, ok := rv.(VPtr); ok && len(con.Ensures) > 0 {
+			// the callee has a contract: its postcondition says when the result
+			// is non-nil, so dereferences are checked against it
+			pv.Origin = OrigMem
+			rv = pv
+		}
+		vals = append(vals, rv)
 	}
 	bindResults(vars, sig, vals)
 	// ghost updates: field(target) := value, value evaluated in the pre-state
@@ -341,9 +348,7 @@ func (ex *Exec) applyContract(f *Frame, st *State, x ssa.Instruction, con *Contr
 			defer func() {
 				if r := recover(); r != nil {
 					if ee, ok := r.(exprErr); ok {
-						if !g.Optional {
-							ex.aborted = fmt.Sprintf("contract error (%s): %s", g.Line, ee.msg)
-						}
+						ex.aborted = fmt.Sprintf("contract error (%s): %s", g.Line, ee.msg)
 						return
 					}
 					panic(r)
